@@ -928,6 +928,10 @@ class Resource:
     pass
 
 
+class NotCallable:
+    """An attribute value that is not callable (each instance distinct)."""
+
+
 def attr_name(method, suffix):
     # the documented naming convention: on_<method>[_<suffix>]
     return 'on_' + method.lower() + ('_' + suffix if suffix else '')
@@ -948,7 +952,7 @@ def map_methods(v):
     def put(m, kind, state):
         if state == 0:
             return
-        val = Responder(kind + ':' + m) if state == 1 else 42
+        val = Responder(kind + ':' + m) if state == 1 else NotCallable()
         setattr(res, attr_name(m, 'items' if kind == 'suffixed' else None), val)
         (suffixed if kind == 'suffixed' else plain)[m] = val
 
@@ -971,12 +975,15 @@ def map_methods(v):
         v.cover('raised')
         return
     mm = out.value
-    v.check('maps-exactly-the-existing-callable-responders', isinstance(mm, dict) and set(mm) == set(expected))
-    v.check('each-method-maps-to-its-own-responder', isinstance(mm, dict) and all(m in expected and mm[m] is expected[m] for m in mm))
+    if not isinstance(mm, dict):
+        v.check('maps-exactly-the-existing-callable-responders', False)
+        return
     if suffix:
         v.check('suffixed-route-reaches-only-suffixed-responders', all(not any(r is p for p in plain.values()) for r in mm.values()))
     else:
         v.check('unsuffixed-route-reaches-only-unsuffixed-responders', all(not any(r is s for s in suffixed.values()) for r in mm.values()))
+    v.check('maps-exactly-the-existing-callable-responders', set(mm) == set(expected))
+    v.check('each-method-maps-to-its-own-responder', all(m in expected and mm[m] is expected[m] for m in mm))
     v.cover('mapped')
 
 
@@ -1320,7 +1327,7 @@ KILLS = [
     # the user's OPTIONS responder is replaced by the default one
     ('falcon/routing/util.py', "    if 'OPTIONS' not in method_map:\n", '    if True:\n', 'set_default_responders#implemented-responders-untouched'),
     # the responder suffix is dropped from the attribute name
-    ('falcon/routing/util.py', "                responder_name += '_' + suffix\n", '                pass\n', 'map_http_methods#'),
+    ('falcon/routing/util.py', "                responder_name += '_' + suffix\n", '                pass\n', 'map_http_methods#suffixed-route-reaches-only-suffixed-responders'),
     # the router ignores the route's suffix / the ASGI app asks for WSGI-flavoured defaults
     ('falcon/routing/compiled.py', "        return map_http_methods(resource, suffix=kwargs.get('suffix', None))", '        return map_http_methods(resource)',
      'add_route#method-map-is-built-from-the-resource-and-the-route-suffix'),
